@@ -427,7 +427,10 @@ fn judge(ctx: &mut Ctx, idx: u64, f: &Family, n: u64, position: &str, naija: Opt
         ctx.out.tag(&format!("over-cap.{}.fired={}", f.target, o.crate_says.as_ref().map_or("?", |c| c.0.as_str())));
     }
     // the configuration users run: the CLI with its 256 MiB scratch arenas
-    if let (Some(naija), Some(scratch)) = (naija, scratch) {
+    let cli_max = ctx.opt_u64("cli-max-source", u64::MAX);
+    if let (Some(naija), Some(scratch)) = (naija, scratch)
+        && (src.len() as u64) <= cli_max
+    {
         ctx.out.evaluations += 1;
         let path = format!("{scratch}/limits-{idx}-{position}.ns");
         std::fs::write(&path, &src).expect("write");
@@ -491,6 +494,6 @@ pub fn run(ctx: &mut Ctx) {
             judge(ctx, idx, f, first_over - 2, "below", naija.as_deref(), scratch.as_deref());
         }
         judge(ctx, idx, f, first_over - 1, "at", naija.as_deref(), scratch.as_deref());
-        judge(ctx, idx, f, first_over, "above", None, None);
+        judge(ctx, idx, f, first_over, "above", naija.as_deref(), scratch.as_deref());
     }
 }
